@@ -35,6 +35,9 @@ func runC11(p *core.Prog, r *core.Report) {
 	c11R8(p, r)
 	c11R9(p, r)
 	c11R10(p, r)
+	// the target's login is not offered to the servers named in a layer's external URLs: the existence
+	// test on the target is made without them (shared with C03.R7)
+	c03R7(p, r, "C11.R11")
 }
 
 // c11R10: a host entry that is created on demand starts from the configured defaults. Starting it from
